@@ -130,6 +130,20 @@ class Scenario:
             self.feeders = [Feeder() for _ in self.sources]
             for f, s_ in zip(self.feeders, self.sources):
                 f.connect(s_)
+        if cfg.get("feedback"):
+            # a cycle through the node (examples/fib_*.py: node.sink(source.emit)): the consumer, while it is being handed an
+            # element, emits the next one into the source -- an arrival in the middle of a delivery
+            probe, orig = self.probes[0], self.probes[0].update
+
+            def update(x, who=None, metadata=None):
+                r = orig(x, who=who, metadata=metadata)
+                if self.next_elem < cfg["max_elems"]:
+                    self.next_elem += 1
+                    e = self.next_elem
+                    self.tags[e] = {"tag": e, "ref": aprobe.RC(e, self.log)}
+                    self._emit(0, e)
+                return r
+            probe.update = update
         self.next_elem = 0
         self.idle_steps = 0      # consecutive loop iterations without an observable event (busy-wait detection)
         self.tags = {}
